@@ -1,0 +1,13 @@
+//go:build !verif
+
+// Package verifhook provides verification-only taps. With the "verif" build
+// tag the harness may install callbacks; without it every call is an empty,
+// inlinable function.
+package verifhook
+
+// Enabled reports whether hooks are compiled in.
+const Enabled = false
+
+func FS(kind, path string, a, b int64) {}
+
+func Pause(name string) {}
